@@ -25,7 +25,10 @@ RULE = ("one evaluation = one seeded object graph (swarm: random subset of value
         "tiny/wide/deep/one-big-array) saved to BOTH stores under a seeded I/O schedule (completion "
         "order, zarr knobs, listing/walk permutations), reloaded after a restart (expected value "
         "rebuilt from the JSON spec, freed memory poisoned), compared structurally, re-saved and "
-        "reloaded (fixed point), and zip vs dir compared. distinct_nontrivial = number of distinct "
+        "reloaded (fixed point), and zip vs dir compared. Graphs include real quantem Vector/Dataset "
+        "objects, nn.Module hybrids, classes nested in classes, SAME-NAMED classes from a second "
+        "module, containers of >= 11 items, 0-d arrays/tensors inside numeric sequences, "
+        "dot/tilde-prefixed names. distinct_nontrivial = number of distinct "
         "(graph spec, configuration) digests with >= 2 graph nodes.")
 SCHED_MEASURE = "distinct executor completion-order signatures over save+load"
 ASSUMPTIONS = [
